@@ -21,6 +21,7 @@ import (
 	"time"
 
 	"github.com/cenkalti/backoff/v4"
+	"github.com/go-logr/logr/funcr"
 	"github.com/ovn-org/libovsdb/client"
 	"github.com/ovn-org/libovsdb/ovsdb"
 
@@ -31,6 +32,14 @@ import (
 )
 
 func init() { drivers["C16"] = driveC16 }
+
+var c16Debug *os.File
+
+func c16Log(format string, a ...interface{}) {
+	if c16Debug != nil {
+		fmt.Fprintf(c16Debug, format+"\n", a...)
+	}
+}
 
 type cutProxy struct {
 	ln     net.Listener
@@ -45,6 +54,17 @@ type cutProxy struct {
 	conns    []net.Conn
 	accepted int
 	cuts     int
+	// history mode: the proxy may answer a monitor_cond_since request on behalf of the server
+	// (result = the server's own reply [found, last-txn-id, updates]; nil = forward it unchanged)
+	holding bool // refuse new connections (the server is unreachable for a while)
+	onSince func(cookie string, requests json.RawMessage, lastID string, result []json.RawMessage) []interface{}
+	pending map[string]sinceReq // by JSON-RPC id
+}
+
+type sinceReq struct {
+	cookie   string
+	requests json.RawMessage
+	lastID   string
 }
 
 func newCutProxy(dir, target string, n int) (*cutProxy, error) {
@@ -65,6 +85,13 @@ func (p *cutProxy) serve() {
 		if err != nil {
 			return
 		}
+		p.mu.Lock()
+		refuse := p.holding
+		p.mu.Unlock()
+		if refuse {
+			c.Close()
+			continue
+		}
 		s, err := net.Dial("unix", p.target)
 		if err != nil {
 			c.Close()
@@ -72,6 +99,7 @@ func (p *cutProxy) serve() {
 		}
 		p.mu.Lock()
 		p.s2c, p.c2s, p.cutS2C, p.cutC2S, p.silent = 0, 0, 0, 0, false
+		p.pending = nil // request ids start again on a new connection
 		p.conns = []net.Conn{c, s}
 		p.accepted++
 		p.mu.Unlock()
@@ -109,6 +137,9 @@ func (p *cutProxy) serve() {
 					src.Close()
 					return
 				}
+				if p.onSince != nil {
+					raw = p.intercept(raw, fromServer)
+				}
 				if _, err := dst.Write(raw); err != nil {
 					dst.Close()
 					src.Close()
@@ -119,6 +150,72 @@ func (p *cutProxy) serve() {
 		go pipe(c, s, true)
 		go pipe(s, c, false)
 	}
+}
+
+// intercept remembers monitor_cond_since requests and lets onSince replace the server's reply.
+func (p *cutProxy) intercept(raw json.RawMessage, fromServer bool) json.RawMessage {
+	var msg struct {
+		Method string            `json:"method"`
+		Params []json.RawMessage `json:"params"`
+		ID     json.RawMessage   `json:"id"`
+		Result json.RawMessage   `json:"result"`
+		Error  json.RawMessage   `json:"error"`
+	}
+	if json.Unmarshal(raw, &msg) != nil {
+		return raw
+	}
+	if c16Debug != nil && fromServer && msg.Method != "" && msg.Method != "echo" {
+		fmt.Fprintf(c16Debug, "  s2c %s %.600s\n", msg.Method, string(raw))
+	}
+	if len(msg.ID) == 0 || string(msg.ID) == "null" {
+		return raw
+	}
+	if c16Debug != nil && fromServer && msg.Method == "" {
+		fmt.Fprintf(c16Debug, "  s2c reply id=%s %.300s\n", msg.ID, string(msg.Result))
+	}
+	if c16Debug != nil && !fromServer {
+		fmt.Fprintf(c16Debug, "  c2s %s id=%s %.400s\n", msg.Method, msg.ID, string(raw))
+	}
+	if !fromServer {
+		if msg.Method == "monitor_cond_since" && len(msg.Params) == 4 {
+			var last string
+			_ = json.Unmarshal(msg.Params[3], &last)
+			p.mu.Lock()
+			if p.pending == nil {
+				p.pending = map[string]sinceReq{}
+			}
+			p.pending[string(msg.ID)] = sinceReq{cookie: string(msg.Params[1]), requests: msg.Params[2], lastID: last}
+			p.mu.Unlock()
+		}
+		return raw
+	}
+	if msg.Method != "" {
+		return raw
+	}
+	p.mu.Lock()
+	rq, ok := p.pending[string(msg.ID)]
+	delete(p.pending, string(msg.ID))
+	p.mu.Unlock()
+	if !ok || (len(msg.Error) > 0 && string(msg.Error) != "null") {
+		return raw
+	}
+	var result []json.RawMessage
+	if json.Unmarshal(msg.Result, &result) != nil || len(result) != 3 {
+		return raw
+	}
+	nr := p.onSince(rq.cookie, rq.requests, rq.lastID, result)
+	if nr == nil {
+		return raw
+	}
+	if c16Debug != nil {
+		b, _ := json.Marshal(nr)
+		fmt.Fprintf(c16Debug, "  REWRITE since %s -> %.1500s\n", rq.lastID, string(b))
+	}
+	out, err := json.Marshal(map[string]interface{}{"id": msg.ID, "result": nr, "error": nil})
+	if err != nil {
+		return raw
+	}
+	return out
 }
 
 func (p *cutProxy) cutNow() {
@@ -141,6 +238,7 @@ func (p *cutProxy) arm(s2c, c2s int) {
 	p.mu.Unlock()
 }
 
+func (p *cutProxy) hold(on bool) { p.mu.Lock(); p.holding = on; p.mu.Unlock() }
 func (p *cutProxy) goSilent() { p.mu.Lock(); p.silent = true; p.mu.Unlock() }
 func (p *cutProxy) close()    { p.ln.Close(); p.cutNow(); os.Remove(p.path) }
 
@@ -176,7 +274,11 @@ func driveC16(o opts) error {
 		ncases = o.n
 	}
 	sc := c16Schema()
+	if p := os.Getenv("VERIF_C16_DEBUG"); p != "" {
+		c16Debug, _ = os.Create(p)
+	}
 	for ci := 0; ci < ncases; ci++ {
+		c16Log("=== case %d", ci)
 		syms := val.NewSyms()
 		syms.ID("_uuid")
 		lab, err := newSrvLab(sc, o.out)
@@ -201,12 +303,42 @@ func driveC16(o opts) error {
 					oracle = fmt.Sprintf(format, a...)
 				}
 			}
-			silentMode := g.Chance(0.2)
+			// history mode: the proxy answers monitor_cond_since as a server that knows past transaction ids would
+			// (only a client with a single monitor_cond_since monitor sends its last id)
+			// case 0 is scripted: history, no forgetting, and in its first round the exact sequence "notification while
+			// connected; unreachable while a set and a map of a monitored row change; back; quiet second cut"
+			scripted := ci == 0
+			historyMode := g.Chance(0.4) || scripted
+			var hist *c16History
+			record := func() {}
+			if historyMode {
+				hist, err = newC16History(lab, g)
+				if err != nil {
+					return err
+				}
+				defer hist.close()
+				px.onSince = hist.onSince
+				record = hist.record
+				if scripted {
+					hist.pForget = 0
+				}
+				w.Count("mode:history")
+			}
+			silentMode := g.Chance(0.2) && !scripted
 			opt := client.WithReconnect(2*time.Second, backoff.NewConstantBackOff(15*time.Millisecond))
 			if silentMode {
 				opt = client.WithInactivityCheck(250*time.Millisecond, 2*time.Second, backoff.NewConstantBackOff(15*time.Millisecond))
 			}
-			cl, err := client.NewOVSDBClient(lab.db.Client, client.WithEndpoint("unix:"+px.path), opt)
+			copts := []client.Option{client.WithEndpoint("unix:" + px.path), opt}
+			if c16Debug != nil {
+				lg := funcr.New(func(prefix, args string) {
+					if strings.Contains(args, "rror") {
+						c16Log("  CLIENT %s %.600s", prefix, args)
+					}
+				}, funcr.Options{Verbosity: 3})
+				copts = append(copts, client.WithLogger(&lg))
+			}
+			cl, err := client.NewOVSDBClient(lab.db.Client, copts...)
 			if err != nil {
 				return err
 			}
@@ -267,9 +399,13 @@ func driveC16(o opts) error {
 			if ob := lab.runWith(ops, writer.transactor(sc.Name)); !ob.Committed {
 				return fmt.Errorf("populate failed")
 			}
+			record()
 			// monitors on disjoint table groups
 			tabs := g.R.Perm(3) // P, C, Q; M is left unmonitored or joins the first group
 			nm := 1 + g.Intn(3)
+			if historyMode {
+				nm = 1
+			}
 			groups := [][]string{{}, {}, {}}[:nm]
 			for i, ti := range tabs {
 				groups[i%nm] = append(groups[i%nm], sc.Tables[ti].Name)
@@ -290,6 +426,9 @@ func driveC16(o opts) error {
 				}
 				monTerm = append(monTerm, "["+strings.Join(ts, "; ")+"]")
 				method := methods[g.Intn(3)]
+				if historyMode {
+					method = ovsdb.ConditionalMonitorSinceRPC
+				}
 				if gi == 1 && g.Chance(0.3) {
 					px.arm(1+g.Intn(2), 0) // cut during this monitor's set-up
 					w.Count("cut:during monitor set-up")
@@ -353,6 +492,7 @@ func driveC16(o opts) error {
 			var stepTerms []string
 			var stepJ []interface{}
 			settle := func(label string) {
+				c16Log("settle: %s", label)
 				deadline := time.Now().Add(8 * time.Second)
 				var cache, dbst map[string]map[string]map[string]val.Val
 				diff := "never connected"
@@ -371,6 +511,7 @@ func driveC16(o opts) error {
 					cache = readCacheAll()
 				}
 				if diff != "" {
+					c16Log("FAIL %s: %s", label, diff)
 					fail("%s: 8 s after the cut the client does not mirror the database: %s", label, diff)
 				}
 				stepTerms = append(stepTerms, fmt.Sprintf("mkStep %s\n     %s\n     %s", monitorsTerm, coqTables(syms, sc, dbst), coqTables(syms, sc, cache)))
@@ -394,6 +535,7 @@ func driveC16(o opts) error {
 				cancel()
 				good := err == nil && len(res) == 1 && res[0].Error == ""
 				markers = append(markers, markerRec{v, good})
+				record()
 			}
 			for k := 0; k < ncuts; k++ {
 				st, _, _ := lab.state()
@@ -401,6 +543,55 @@ func driveC16(o opts) error {
 				kind := g.Intn(4)
 				if silentMode {
 					kind = 4 // only a client with the inactivity probe can notice a silent peer
+				}
+				if scripted && k == 0 {
+					var pu string
+					for u := range st["P"] {
+						if pu == "" || u < pu {
+							pu = u
+						}
+					}
+					byU := []Cond{{Col: "_uuid", Fn: "==", Arg: val.VA(val.Uuid(pu))}}
+					step := func(ss []string, m [][2]string) {
+						sv := val.Val{K: 's'}
+						for _, x := range ss {
+							sv.Set = append(sv.Set, val.Str(x))
+						}
+						mv := val.Val{K: 'm'}
+						for _, p := range m {
+							mv.Map = append(mv.Map, [2]val.Atom{val.Str(p[0]), val.Str(p[1])})
+						}
+						lab.runWith([]TOp{{Kind: "update", Table: "P", Where: byU, Row: map[string]val.Val{"ss": sv, "m": mv}}}, writer.transactor(sc.Name))
+						record()
+					}
+					step([]string{"a", "b"}, [][2]string{{"k1", "x"}, {"k2", "y"}})
+					settle("scripted: notified while connected")
+					px.hold(true)
+					px.cutNow()
+					step([]string{"b", "c"}, [][2]string{{"k1", "z"}, {"k3", "w"}})
+					px.hold(false)
+					settle("scripted: back after changes made while unreachable")
+					px.cutNow()
+					settle("scripted: quiet second cut")
+					w.Count("scripted history round")
+					continue
+				}
+				if historyMode && g.Chance(0.8) {
+					// a transaction while the client is connected: its update3 gives the client a last-transaction-id
+					lab.runWith(tg.txn(4), writer.transactor(sc.Name))
+					record()
+					settle(fmt.Sprintf("before cut %d", k))
+					st, _, _ := lab.state()
+					tg.state = st
+				}
+				held := false
+				if historyMode && kind <= 1 && g.Chance(0.7) {
+					// the server stays unreachable while other clients commit: the changes reach the client
+					// only through the reply to its re-established monitor
+					held = true
+					kind = 0
+					px.hold(true)
+					w.Count("cut:server unreachable while others commit")
 				}
 				switch kind {
 				case 0: // cut between notifications
@@ -426,6 +617,27 @@ func driveC16(o opts) error {
 					st, _, _ := lab.state()
 					tg.state = st
 					lab.runWith(tg.txn(4), writer.transactor(sc.Name))
+					record()
+				}
+				if held {
+					px.hold(false)
+				}
+				if historyMode && g.Chance(0.5) {
+					// a second cut after a quiet session: no notification between two reconnections
+					settle(fmt.Sprintf("cut %d (kind %d), before the quiet second cut", k, kind))
+					away := g.Chance(0.5)
+					if away {
+						px.hold(true)
+					}
+					px.cutNow()
+					w.Count("cut:idle, again after a quiet session")
+					if away {
+						st, _, _ := lab.state()
+						tg.state = st
+						lab.runWith(tg.txn(4), writer.transactor(sc.Name))
+						record()
+						px.hold(false)
+					}
 				}
 				if g.Chance(0.5) {
 					clientTransact()
@@ -456,9 +668,20 @@ func driveC16(o opts) error {
 					w.Count(fmt.Sprintf("transact:returned an error (applied %d times)", stored))
 				}
 			}
+			foundAnswers := 0
+			if hist != nil {
+				hist.mu.Lock()
+				for k, n := range hist.counts {
+					w.Dist[k] += n
+					if strings.HasPrefix(k, "since:found") {
+						foundAnswers += n
+					}
+				}
+				hist.mu.Unlock()
+			}
 			term := "[" + strings.Join(stepTerms, ";\n    ") + "]"
-			w.Add(emit.Case{Term: term, JSON: map[string]interface{}{"monitors": groups, "steps": stepJ, "silent": silentMode}, Key: term,
-				Nontrivial: nm >= 2, Oracle: oracle})
+			w.Add(emit.Case{Term: term, JSON: map[string]interface{}{"monitors": groups, "steps": stepJ, "silent": silentMode, "history": historyMode}, Key: term,
+				Nontrivial: nm >= 2 || foundAnswers > 0, Oracle: oracle})
 			return nil
 		}()
 		if err != nil {
